@@ -3,7 +3,7 @@
    the definitions regenerated from /repo's helpers.py and abstract.py. *)
 From Coq Require Import List Permutation Sorted.
 From PV Require Import Xnum Select PyLib Select_proofs.
-From PVGen Require Import GenSelect.
+From PVGen Require Import GenSelect GenHyper.
 From PVBridge Require Import SelectBridge C16Main.
 
 Theorem C16_sort_by_cost : forall A cost l d, costs_ok A cost l ->
@@ -114,3 +114,9 @@ Print Assumptions C16_sort_and_trim.
 Print Assumptions C16_greedy_agent.
 Print Assumptions C16_greedy_population.
 Print Assumptions C16_no_mutation.
+
+(* state shared between objects (regenerated scan of the whole package: memoising decorators, mutable class attributes of non-pydantic classes, module-level
+   containers mutated by functions): there is none - the helpers return fresh lists computed from their arguments: nothing memoised is handed out *)
+Theorem C16_no_shared_mutable_state : gen_no_shared_mutable_state = true.
+Proof. reflexivity. Qed.
+Print Assumptions C16_no_shared_mutable_state.
